@@ -13,6 +13,8 @@ type GenOpts struct {
 	FiniteFloats bool // NDJSON legs: no NaN/inf
 	Budget       int  // soft bound on the number of nodes generated for one value
 	Big          bool // allow >64 KiB strings / long vectors (rarely drawn)
+	// BigBoost: draw them often, and up to three buffers long (checks about the readers' 64 KiB buffers)
+	BigBoost bool
 	// NoZeroDim: dynamic arrays get at least one dimension (known finding switch)
 	NoZeroDim bool
 	// DeclaredEnumsInArrays: enum elements of arrays only take declared values (known finding switch)
@@ -169,6 +171,9 @@ func genFloat(t *rapid.T, bits int, finite bool) float64 {
 var edgeStrings = []string{"", "a", "hello", "é", "日本語", "😀", "a\"b", "back\\slash", "line\nbreak", "tab\there", "é́", " leading", "trailing ", "null", "0", "{\"k\":1}", " ", "\x7f", "\x01", "~`!@#$%^&*()"}
 
 func genString(t *rapid.T, o *GenOpts) string {
+	if o.BigBoost && intn(t, "bigBoostStr", 6) == 0 {
+		return strings.Repeat("0123456789abcdef", 4096*(1+intn(t, "bigBuffers", 3))+intn(t, "bigN2", 300)) + rapid.SampledFrom([]string{"", "é", "😀x"}).Draw(t, "bigTail2")
+	}
 	switch intn(t, "strKind", 10) {
 	case 0, 1, 2, 3, 4:
 		return rapid.SampledFrom(edgeStrings).Draw(t, "edgeStr")
@@ -291,6 +296,9 @@ func Gen(t *rapid.T, env *model.Env, typ *model.Type, o *GenOpts) *Value {
 }
 
 func genLen(t *rapid.T, o *GenOpts) int {
+	if o.BigBoost && o.inArray == 0 && intn(t, "bigBoostLen", 8) == 0 {
+		return 9000 + intn(t, "bigBoostLenN", 16000)
+	}
 	switch intn(t, "lenKind", 8) {
 	case 0:
 		return 0
